@@ -1287,6 +1287,74 @@ pub fn run_c19(run: &mut Run) -> Stats {
             }
         }
     }
+    // A CHANGING tree under ONE long-lived FsDir: after every change (a .gz sibling appears,
+    // disappears, is replaced; the plain file is replaced or removed; a sibling becomes a directory;
+    // a directory becomes a file) every lookup through the long-lived instance must give what a
+    // FsDir opened just now gives -- same inode, same encoding flag, same error kind. Nothing an
+    // earlier lookup learned may outlive the change (differential oracle, no expected values).
+    {
+        let hdir = tmp_root().join(format!("c19-history-{}", std::process::id()));
+        let _ = std::fs::remove_dir_all(&hdir);
+        std::fs::create_dir_all(hdir.join("sub")).unwrap();
+        for f in ["f", "g", "sub/f"] {
+            std::fs::write(hdir.join(f), format!("plain {f}")).unwrap();
+        }
+        let rt0 = tokio::runtime::Builder::new_current_thread().build().expect("runtime");
+        let long = http_serve::dir::FsDir::builder().auto_gzip(true).for_path(&hdir).expect("open base");
+        let mut gz = HeaderMap::new();
+        gz.insert("accept-encoding", http::HeaderValue::from_static("gzip"));
+        let plain = HeaderMap::new();
+        type Act = Box<dyn Fn(&Path)>;
+        let acts: Vec<(&str, Act)> = vec![
+            ("nothing yet", Box::new(|_| {})),
+            ("f.gz created", Box::new(|b| std::fs::write(b.join("f.gz"), "gz 1").unwrap())),
+            ("f.gz removed", Box::new(|b| std::fs::remove_file(b.join("f.gz")).unwrap())),
+            ("f.gz created again", Box::new(|b| std::fs::write(b.join("f.gz"), "gz 2 longer").unwrap())),
+            ("f replaced by a new file", Box::new(|b| {
+                std::fs::rename(b.join("f"), b.join("f.old")).unwrap();
+                std::fs::write(b.join("f"), "plain f, second version").unwrap();
+            })),
+            ("f removed (f.gz stays)", Box::new(|b| std::fs::remove_file(b.join("f")).unwrap())),
+            ("g.gz created as a directory", Box::new(|b| std::fs::create_dir(b.join("g.gz")).unwrap())),
+            ("g.gz directory replaced by a file", Box::new(|b| {
+                std::fs::remove_dir(b.join("g.gz")).unwrap();
+                std::fs::write(b.join("g.gz"), "gz g").unwrap();
+            })),
+            ("sub/f.gz created", Box::new(|b| std::fs::write(b.join("sub/f.gz"), "gz sub f").unwrap())),
+            ("directory sub replaced by a file", Box::new(|b| {
+                std::fs::remove_dir_all(b.join("sub")).unwrap();
+                std::fs::write(b.join("sub"), "now a file").unwrap();
+            })),
+            ("f created again", Box::new(|b| std::fs::write(b.join("f"), "plain f, third version").unwrap())),
+        ];
+        let lookups = ["f", "g", "sub/f", "sub", "f.gz", "g.gz"];
+        for (ai, (label, act)) in acts.iter().enumerate() {
+            act(&hdir);
+            let fresh = http_serve::dir::FsDir::builder().auto_gzip(true).for_path(&hdir).expect("open base");
+            // twice: the second round sees whatever the first one left behind in the instance
+            for round in 0..2 {
+                for p in lookups {
+                    for (hn, h) in [("gzip", &gz), ("none", &plain)] {
+                        let get = |d: &std::sync::Arc<http_serve::dir::FsDir>| {
+                            catch_unwind(AssertUnwindSafe(|| rt0.block_on(async { d.clone().get(p, h).await.map(|n| (n.metadata().dev(), n.metadata().ino(), n.metadata().len(), n.encoding().is_some())).map_err(|e| e.kind()) }))).map_err(|pn| panic_msg_ref(&pn))
+                        };
+                        let got = get(&long);
+                        let want = get(&fresh);
+                        ctx_stats.evaluations += 2;
+                        ctx_stats.nontrivial(&("tree-history", ai, round, p, hn));
+                        let s0 = ctx_stats.state(&("tree-history", ai));
+                        let s1 = ctx_stats.state(&("tree-history-result", got == want));
+                        ctx_stats.transition(s0, round as u64, s1);
+                        ctx_stats.outcome(format!("changing-tree/{}", if got == want { "same-as-fresh-instance" } else { "differs" }));
+                        if got != want && run.prop == "C19" {
+                            ctx_stats.violation((1 << 57) + ai as u64, "stale-after-tree-change".into(), format!("after '{label}' (step {ai} of a history on one FsDir), get({p:?}) with Accept-Encoding {hn}: the long-lived instance gives {got:?}, an instance opened now gives {want:?} (dev, inode, length, encoding flag / error kind)"), || json!({"engine": "fs_mc", "what": "tree-history"}));
+                        }
+                    }
+                }
+            }
+        }
+        let _ = std::fs::remove_dir_all(&hdir);
+    }
     let prop = run.prop.clone();
     let nthreads = threads();
     let chunk = paths.len().div_ceil(nthreads * 4);
